@@ -4,7 +4,8 @@ from props.taste_dispatch import dispatch_tasks
 from props.C01 import ASSUMPTIONS as A01, TRUSTED as T01
 
 ASSUMPTIONS = A01 + ["well-formed input: every binary file is the concatenation of canonical FABs at the recorded offsets "
-                     "(OnDisk); boxes handed to mp_fun_shape are in offset order (parent bookkeeping: bounded layer)",
+                     "(OnDisk); boxes handed to the workers are those of the file in offset order with their own index ranges (parent "
+                     "bookkeeping proved on a bounded skeleton: 3 boxes over 2 interleaved files)",
                      "sub-checks of Taster.taste() are abstracted to their outcome in the dispatch proof",
                      "taste_box_coordinates: one level, any number of boxes, reals for floats, np.linspace step = dx by "
                      "cancellation (checked by the solver at the call), np.isclose as |a-b| <= 1e-8 + 1e-5|b|"]
@@ -13,7 +14,8 @@ TRUSTED = T01 + ["pool.imap order and exception propagation (assumed)"]
 
 def tasks(tier):
     from props.taste_coords import coord_tasks
-    return worker_tasks("C03", ["complete"]) + dispatch_tasks("C03") + coord_tasks("C03")
+    from props.taste_parents import parent_tasks
+    return worker_tasks("C03", ["complete"]) + dispatch_tasks("C03") + coord_tasks("C03") + parent_tasks("C03")
 
 
 def canaries(tier):
